@@ -14,6 +14,31 @@ CLAIMS = {
   text="Decides on every path that each growth of a persistent decoder slice is bounded by a recognised guard whose accumulator follows the appended length, and that a slice handed to the caller is dropped and its backing array never reused. Does not measure heap or prove termination; bounds-check freedom is covered by the NO-PANIC rule where armed.",
   note="Trusts: constants compared against are the documented maxima; pion/mediacommon payload parsers; zero-length fragments are not bounded by the byte cap (stated).",
   ref="3 C08"),
+ "C02": dict(
+  technique="finite-domain abstract interpretation of the session state (FSM extraction vs RFC 2326 reference table), who-may-write, must-pass-through path queries, sibling unit agreement",
+  text="Extracts the server session state machine from the source (accepted states per method, every state store with its possible pre-states and its 200-guard) and compares it with the reference machine; decides on all paths that one response is written per request with CSeq echoed, that handlers never return a nil response, that a request error ends the read loop and closes the socket, that every control read has a deadline, that lifecycle callbacks are unique and ordered, that clock atomics agree on their unit, and that the request/reply plumbing cannot leave a requester unanswered. Does not decide timing clauses or liveness.",
+  note="Trusts: application handlers return non-nil responses (documented contract); go/ssa lowering; the reference FSM table transcribed from RFC 2326 A.1 plus the library's documented relaxations.",
+  ref="3 C02"),
+ "C06": dict(
+  technique="SSA path queries over packet literals (sequence counter pairing), header-field provenance, input-alias taint",
+  text="Decides for all 15 packetizers, on every path: each packet literal takes its sequence number from the counter and the counter is incremented exactly once per packet; header fields come from the configuration; Init seeds the counter; no store / copy / append writes through a value aliasing Encode's input. Does not decide the numeric payload-size bound or marker placement.",
+  note="Trusts: pion payloaders (VP8/VP9) do not write their input; static payload-type table from RFC 3551.",
+  ref="3 C06"),
+ "C09": dict(
+  technique="map-range commutativity analysis (key-set dataflow over SSA loops), call-graph purity scan, string-split provenance",
+  text="Decides that no parser or marshaller of the header packages lets a value or a reported failure depend on map iteration order, that Marshal functions reach no clock / random source / mutable global, and that the Basic password is cut at the first separator. Does not decide parse(marshal(x)) == x.",
+  note="Trusts: go/ssa range lowering; sort.* / slices.Sort* establish a deterministic order.",
+  ref="3 C09"),
+ "C13": dict(
+  technique="goroutine lifecycle table check, channel-operation role analysis, reply pairing path queries, dominance of joins over callbacks",
+  text="Decides structurally that every go statement has a completion signal and a waiting owner, that every channel operation is cancellable or role-exempt, that write-queue error callbacks listen to the queue's own context, that run loops answer every request exactly once, and that close notifications are dominated by the joins. Does not decide latency or observe leaks.",
+  note="Trusts: the reviewed goroutine table (14 rows) and channel roles derived from field names/types; one reviewed reply exemption.",
+  ref="3 C13"),
+ "C16": dict(
+  technique="lockset (guarded-by) analysis, must-pass-through path queries (broadcast after store/close), who-may-call",
+  text="Decides that all ring state is touched under the mutex, that a push or close always broadcasts, that Wait sits in a re-testing loop, that refusal happens only on the occupied-slot edge tested under the lock, that Close discards every slot, that Pull has a single consumer spawned once, and that an error stops the consumer after one report. Does not decide linearizability of concurrent histories.",
+  note="Trusts: sync.Mutex/Cond semantics; RingBuffer.Reset is documented single-threaded (exempt).",
+  ref="3 C16"),
 }
 
 NA = {
